@@ -66,4 +66,14 @@ inductive MethodTy : JStr → List Ty × Option Ty → Prop where
 i.e. an array field descriptor -/
 def ArrayDescriptor (s : JStr) : Prop := ∃ d b, FieldTy s (.arr d b)
 
+/-- what the documentation of `ClassName` promises: "can both be an array class name as allowed by `ArrClassName`
+and an object class name as allowed by `ObjClassName`" (error text: "must be either array field descriptor; or must
+consist out of `/` separated non-empty parts, and not contain any of `.`, `;`, `[`") -/
+def AnyClassName (s : JStr) : Prop := ClassName s ∨ ArrayDescriptor s
+
+/-- the *proved domain* of the two predicates that look at array class names (`ArrClassName`, `ClassName`): every string
+except those that start with `[` without being an array field descriptor.  On the excluded strings the code
+answers "valid" where its documentation says "invalid" (`TODO: must be a field desc` in `duke/src/tree/mod.rs`). -/
+def ArrNameDomain (s : JStr) : Prop := s.head? = some LBRACKET → ArrayDescriptor s
+
 end DescriptorGrammar
